@@ -235,6 +235,7 @@ CHECKS["C09"]["text"] += " An RMCP acknowledgement instead of a reply (also over
 CHECKS["C10"]["text"] += " An RMCP acknowledgement instead of a reply; a read failing with EHOSTUNREACH instead of a timeout (inside a session: one transmission, an error)."
 CHECKS["C11"]["text"] += " Calls with a context that is cancelled or past its deadline: a nil error must stand for a delivered response."
 CHECKS["C12"]["text"] += " NewSession against every advertised set; replies are windows into one reused receive buffer."
+CHECKS["C03"]["text"] += " The v1.5-style Get Channel Authentication Capabilities among the command variants."
 CHECKS["C14"]["text"] += " Timestamps reaching FFFFFFFFh; reserved bit 5 of the ID string type/length byte."
 CHECKS["C16"]["text"] += " Error codes C9/C1/CB/D4/FF from one standard entity while the others have sensors."
 CHECKS["C20"]["text"] += " Decoded strings stay put when their input buffer is overwritten."
